@@ -270,8 +270,16 @@ def build(sim, typ):
         sil = Palette(case.tech, poll, pal, sim)
         return [sil], 64, dict(d, tech=case.tech), {"max_send": case.max_send, "max_recv": case.max_recv}
     d.update(tech=case.tech, file=len(app.files.get(app.ndef_fid, b"")))
-    return [sil], len(app.files.get(app.ndef_fid, b"")) // max(1, min(case.mle, 15)) + 64, d, \
-        {"max_send": case.max_send, "max_recv": case.max_recv}
+    units = len(app.files.get(app.ndef_fid, b"")) // max(1, min(case.mle, 15)) + 64
+    # a card that chains its answers in small blocks and asks for waiting time extensions needs that many
+    # more block exchanges per APDU: the bound is in device exchanges, so scale it by the protocol overhead
+    overhead = 1
+    if case.chunk:
+        overhead *= -(-(min(case.mle, 255) + 3) // case.chunk)
+    if case.wtx_every:
+        overhead *= 2
+    d["protocol_overhead"] = overhead
+    return [sil], units * overhead, d, {"max_send": case.max_send, "max_recv": case.max_recv}
 
 
 def run_one(sim, params):
